@@ -78,6 +78,8 @@ int main( int argc, char * argv[] )
     signal( SIGTERM, catcher );
     signal( SIGINT , catcher );
 
+    bool parseFailed = false;
+
 
 #ifdef PEDANTIC_DEBUG
     cerr << "; pedantic assertion checking enabled (very slow)" << endl;
@@ -119,7 +121,8 @@ int main( int argc, char * argv[] )
                 opensmt_error( "SMTLIB 1.2 format is not supported in this version, sorry" );
             }
             else if ( extension != NULL && strcmp( extension, ".smt2" ) == 0 ) {
-                interpreter.interpFile(fin);
+                // a syntax error makes the parser give up on the whole file: it must show in the exit status
+                if (interpreter.interpFile(fin) != 0) { parseFailed = true; }
             }
             else
                 opensmt_error2( filename, " extension not recognized. Please use one in { smt2, cnf } or stdin (smtlib2 is assumed)" );
@@ -127,7 +130,7 @@ int main( int argc, char * argv[] )
         fclose( fin );
     }
 
-    int const exit_status = interpreter.okStatus() ? 0 : 1;
+    int const exit_status = (interpreter.okStatus() and not parseFailed) ? 0 : 1;
 
     return exit_status;
 }
